@@ -52,10 +52,11 @@ RECIPES = {
     'projector_add3': dict(name='add', cls='projector', self='projector', sel='(std::size_t, double, double)'),
     'projector_add4': dict(name='add', cls='projector', self='projector', sel='(std::size_t, double, double, double)'),
     'mc_result_value': dict(name='value', cls='mc_result', self='mc_result'),
-    'mc_result_variance': dict(name='variance', cls='mc_result', self='mc_result'),
+    'mc_result_variance': dict(name='variance', cls='mc_result', self='mc_result', allow_unsigned_wrap=True),
     'mc_result_error': dict(name='error', cls='mc_result', self='mc_result'),
     'mc_result_ctor5': dict(name='mc_result', cls='mc_result', self='mc_result', ctor=True, sel='(std::size_t, std::size_t, std::size_t, double, double)'),
-    'create_result': dict(name='create_result'),
+    # T(calls - 1) wraps for calls == 0 (empty combination / N < 2): defined unsigned arithmetic, result multiplied by error^2
+    'create_result': dict(name='create_result', allow_unsigned_wrap=True),
 }
 
 _CAST_INVOKE = {'accumulator_nodist_invoke': {1: 'struct integrand *', 2: 'const struct mc_point *'}}
@@ -112,6 +113,15 @@ RECIPES.update({
     'multi_channel_result_adjustment_data': dict(unit='chkpt', name='adjustment_data', cls='multi_channel_result', self='multi_channel_result'),
 })
 
+RECIPES.update({
+    'weighted_with_variance_call': dict(unit='chkpt', name='operator()', cls='weighted_with_variance', cls_targs_has='hep::mc_result', self='weighted_with_variance', opts=dict(iter_vec='vec_mc_result')),
+    'weighted_equally_call': dict(unit='chkpt', name='operator()', cls='weighted_equally', cls_targs_has='hep::mc_result', self='weighted_equally', opts=dict(iter_vec='vec_mc_result')),
+    'chi_square_dof': dict(unit='chkpt', name='chi_square_dof', opts=dict(iter_vec='vec_mc_result')),
+    'mc_result_calls': dict(name='calls', cls='mc_result', self='mc_result'),
+    'mc_result_non_zero_calls': dict(name='non_zero_calls', cls='mc_result', self='mc_result'),
+    'mc_result_finite_calls': dict(name='finite_calls', cls='mc_result', self='mc_result'),
+})
+
 # ---- fragments: single expressions inside the MPI drivers -----------------------------------
 _SUBP = [('size_t', 'calls'), ('int', 'rank'), ('int', 'world')]
 _DISP = [('size_t', 'calls'), ('int', 'rank'), ('int', 'world'), ('size_t', 'usage')]
@@ -121,6 +131,9 @@ for _d in ('mpi_plain', 'mpi_vegas', 'mpi_multi_channel'):
     FRAGMENTS[_d + '_sub_calls'] = dict(unit='mpi', fn=_d, var='sub_calls', params=_SUBP, ret='size_t')
     FRAGMENTS[_d + '_discard1'] = dict(unit='mpi', fn=_d, call=('discard', 0, 0), count=2, params=_DISP, ret='size_t')
     FRAGMENTS[_d + '_discard2'] = dict(unit='mpi', fn=_d, call=('discard', 1, 0), count=2, params=_DIS2, ret='size_t')
+
+FRAGMENTS['callback_decision'] = dict(unit='chkpt', fn='operator()', cls='callback', var='perform_more_iterations', returned_by=True,
+                                      params=[('T', 'val_all'), ('T', 'err_all'), ('T', 'target_rel_err_')], ret='_Bool')
 
 # ---- B1 jobs ------------------------------------------------------------------------------------
 _GHOSTS = ('size_t vp_invocations, vp_weight_calls, vp_acc_calls; T vp_last_f, vp_last_w, vp_last_acc; '
@@ -249,6 +262,13 @@ JOBS = [
     dict(name='mc_chkpt_channels', functions=['multi_channel_chkpt_channels', 'chkpt_multi_channel_result_results', 'multi_channel_result_channel_weights'],
          specs=['multi_channel_chkpt_channels'], entry='h_multi_channel_chkpt_channels', enforce='multi_channel_chkpt_channels',
          structs=_ST_MCHK, preludes=['opaque.h'], defines=['VP_NMAX=1048576'], props=['C19', 'C15', 'C08']),
+    dict(name='callback_decision', functions=[], fragments=['callback_decision'], specs=['callback_decision'], harness_sections=['callback_decision'],
+         entry='h_callback_decision', enforce='callback_decision', props=['C12', 'C20'], thorough_reals=['float'], solvers=['cvc5', 'cadical'],
+         assumptions=['the combined result handed to the decision is accumulate<weighted_with_variance> over all results (C13); the decision is the only value operator() returns (checked on the AST: single return of this variable)']),
+    dict(name='weighted_with_variance', functions=['weighted_with_variance_call', 'mc_result_calls', 'mc_result_non_zero_calls', 'mc_result_finite_calls', 'mc_result_value', 'mc_result_variance', 'create_result', 'mc_result_ctor5'],
+         entry='h_weighted_with_variance_call', enforce='weighted_with_variance_call', af=['weighted_with_variance_call', 'mc_result_value', 'mc_result_variance', 'create_result'],
+         structs=[dict(cls='mc_result', vec=True), dict(cname='weighted_with_variance', opaque=True)], globals='size_t vp_g_calls, vp_g_nz, vp_g_fc;',
+         defines=['VP_NMAX=1048576', 'VP_CALLSMAX=1099511627776'], props=['C13', 'C12'], thorough_reals=['float']),
     dict(name='refine_weights', functions=['multi_channel_refine_weights'], entry='h_multi_channel_refine_weights',
          enforce='multi_channel_refine_weights', replace=['vp_pow'], af=['multi_channel_refine_weights'], globals='T vp_g_s1, vp_g_s2; _Bool vp_g_nodata;',
          defines=['VP_NMAX=1048576'], props=['C08'], thorough_reals=['float'],
